@@ -90,6 +90,8 @@ m = {
  "engines": [
   {"name": "arxv-seq", "path": "harness/", "serves_properties": [p for p in ids if p in CHECKS and CHECKS[p][0] == "arxv-seq"],
    "kind_free_text": "proptest-generated pipelines / scripts / driver histories executed on the instrumented crate under the arx_rt controlled runtime (one harness thread); invariant, differential (reference interpreter) and metamorphic oracles"},
+  {"name": "arxv-fuzz", "path": "fuzz/", "serves_properties": ["C01", "C03", "C05", "C06", "C14", "C17"],
+   "kind_free_text": "coverage-guided tier of the thorough runs: cargo-fuzz / libFuzzer target decoding bytes into sequential cases and running the same oracles (not load-bearing: skipped with a note if the nightly fuzz build fails)"},
   {"name": "arxv-conc", "path": "harness/", "serves_properties": [p for p in ids if p in CHECKS and CHECKS[p][0] == "arxv-conc"],
    "kind_free_text": "proptest-generated concurrent scenarios + schedules (generated data) executed under the arx_rt controlled runtime (every lock / condvar / spawn / sleep is a scheduling point, virtual clock); stamped-history oracles"},
  ],
